@@ -30,7 +30,7 @@ from . import util_stop as U
 META = {
     "rule": "graph: BFS over all reachable controller states (full __dict__ restored) x 6 letters (+reset) to depth "
             "12/16 for every configuration in (steps 1..6 x patience 1..4) plus steps in {0,-1,7,12,13,50} / patience in "
-            "{0,5,6,12,13}; trie: all 6^L literal sequences for the 24 core configurations (quick: L=5 sop / 4 rtb for all, L=6 / 5 for a random subset; thorough: L=6..7 sop / 5 rtb for all, L=8 / 6 for a subset); "
+            "{0,5,6,12,13}; trie: all 6^L literal sequences for the 24 core configurations (quick: L=4..5 sop / 3..4 rtb for all, L=6 / 5 for a random subset; thorough: L=6..7 sop / 5 rtb for all, L=8 / 6 for a subset); "
             "num: random walks over magnitude ladders with exact-boundary moves (ratio == decreasing, loss == tol, 0, "
             "negative), dtypes f32/f64/int/python float, batch shapes up to rank 2, resets and post-stop steps; "
             "drv: scripted + genuine optimizers/LQR/kNN, 1..4 calls per object with every per-call argument varied; "
@@ -109,9 +109,11 @@ def new_rtb(cfg):
     return pp().utils.ReduceToBason(*a, **k)
 
 
-def draw_style(rng):
-    """(verbose, style): non-default values of the rarely used keyword and the three calling styles"""
-    return rng.random() < 0.5, rng.choice(["kw", "kw", "pos", "omit"])
+def draw_style(rng, p_verbose=0.3):
+    """(verbose, style): non-default values of the rarely used keyword and the three calling styles
+    (printing tensors is slow, so the exhaustive abstract streams use verbose in ~30 % of the configurations;
+    the numeric / driver / corpus streams in 50 %)"""
+    return rng.random() < p_verbose, rng.choice(["kw", "kw", "pos", "omit"])
 
 
 def key_of(ctl, kind):
@@ -480,16 +482,28 @@ def gen_value(rng, l, D, TOL, dtype, is_int, extreme=False):
     return x + 0.0 if x != 0 else 0.0   # no -0.0
 
 
-SHAPES = [[1], [2], [3], [4], [2, 2], [1, 3], [3, 1], [2, 1, 2], [5], [3, 2]]
+SHAPES = [[1], [2], [3], [4], [2, 2], [1, 3], [3, 1], [2, 1, 2], [5], [3, 2], [7], [3, 3], [1, 1], [2, 3], [3, 1, 1], [0], [11]]
 LAYOUTS = ["fresh", "fresh", "fresh", "slice", "strided", "expanded"]
 STATE_KEYS = {"steps", "patience_count", "_continual", "last"}
 
 
+GRADS = ["plain", "plain", "requires_grad", "no_grad", "inference"]
+
+
 def draw_segcfg(rng, allow_int=True):
-    vkind = rng.choice(["pyfloat", "t0d", "t0d", "batch", "batch", "batch"] + (["pyint"] if allow_int else []))
-    dtype = "float32" if vkind in ("pyfloat", "pyint") else rng.choice(["float64", "float32"])
-    shape = rng.choice(SHAPES) if vkind == "batch" else []
-    return {"vkind": vkind, "dtype": dtype, "shape": shape}
+    """kind of object handed to step(): python float / int, numpy float64 (a float subclass), 0-d tensor, batched
+    tensor, nn.Parameter (a Tensor subclass); and the autograd mode the call is made in"""
+    vkind = rng.choice(["pyfloat", "np64", "t0d", "t0d", "batch", "batch", "batch", "param"] + (["pyint"] if allow_int else []))
+    dtype = "float32" if vkind in ("pyfloat", "pyint") else ("float64" if vkind == "np64" else rng.choice(["float64", "float32"]))
+    shape = rng.choice(SHAPES) if vkind in ("batch", "param") else []
+    if vkind == "param" and rng.random() < 0.3:
+        shape = []
+    return {"vkind": vkind, "dtype": dtype, "shape": shape, "grad": rng.choice(GRADS) if vkind in ("t0d", "batch") else "plain"}
+
+
+def grad_ctx(mode):
+    import contextlib
+    return {"no_grad": torch.no_grad, "inference": torch.inference_mode}.get(mode, contextlib.nullcontext)()
 
 
 def gen_rtb_case(ctx: Ctx, n_max, force=None, long=False):
@@ -502,12 +516,20 @@ def gen_rtb_case(ctx: Ctx, n_max, force=None, long=False):
     tol = rng.choice(TOL_CHOICES)
     if varying:
         d, tol = U.rnd(d, "float32"), U.rnd(tol, "float32")   # the same effective threshold in every dtype
+    style = rng.choice(["kw", "kw", "pos", "omit"])
+    force_default = {k: style == "omit" and rng.random() < 0.6 for k in ("d", "tol", "patience")}
+    if force_default["d"]:
+        d = RTB_DEFAULTS["d"]
+    if force_default["tol"]:
+        tol = RTB_DEFAULTS["tol"]
     D, TOL = U.rnd(d, seg["dtype"]), U.rnd(tol, seg["dtype"])
     if seg["vkind"] == "pyint":
         D, TOL = U.rnd(rng.choice([0.5, 1.0, 0.25, 1e-3, 0.0]), "float32"), U.rnd(rng.choice([1e-5, 1.0, 3.0, -1.0]), "float32")
         d, tol = D, TOL
     steps = rng.choice([1, 2, 3, 4, 5, 6, 8, 10, 15, 30, 200, 0, 10 ** 9, 2 ** 40])
     patience = rng.choice([1, 2, 2, 3, 3, 4, 5, 5, 6, 0, 10 ** 6])
+    if force_default["patience"]:
+        patience = RTB_DEFAULTS["patience"]
     if long:
         steps, patience = rng.choice([10 ** 9, 2 ** 40, n_max - 3]), rng.choice([10 ** 6, 130, 257, n_max // 2])
     n = rng.randint(n_max // 2, n_max) if long else rng.randint(1, n_max)
@@ -518,12 +540,16 @@ def gen_rtb_case(ctx: Ctx, n_max, force=None, long=False):
     events, last, skipped = [], None, 0
     coordinated = rng.random() < 0.5
     first_seg = dict(seg)
-    B = int(math.prod(seg["shape"])) if seg["shape"] else 1
+    B = int(math.prod(seg["shape"])) if seg["vkind"] in ("batch", "param") and seg["shape"] else 1
+    if seg["shape"] == [0]:
+        B = 0
     for _ in range(n):
         if events and rng.random() < p_reset:
             if varying and rng.random() < 0.7:
                 seg = draw_segcfg(rng, allow_int=False)
                 B = int(math.prod(seg["shape"])) if seg["shape"] else 1
+                if seg["shape"] == [0]:
+                    B = 0
                 events.append(["R", dict(seg)])
             else:
                 events.append(["R"])
@@ -546,17 +572,26 @@ def gen_rtb_case(ctx: Ctx, n_max, force=None, long=False):
             else:
                 vals = [gen_value(rng, None if last is None else last[i], D, TOL, dtype, seg["vkind"] == "pyint", extreme)
                         for i in range(B)]
+            if B >= 3 and attempt < 5 and not long and rng.random() < 0.25:
+                # all elements move together except ONE at a random position (first, middle, last) that does its own thing
+                import random as _r
+                s2 = rng.randrange(1 << 30)
+                vals = [gen_value(_r.Random(s2), None if last is None else last[i], D, TOL, dtype, False, extreme) for i in range(B)]
+                j = rng.choice([0, B - 1, B - 1, rng.randrange(B)])
+                vals[j] = gen_value(rng, None if last is None else last[j], D, TOL, dtype, False, extreme)
             _, _, amb = U.rtb_obs_exact(last, vals, D, TOL, dtype)
             if not amb:
                 break
             skipped += 1
-        layout = "reuse" if (reuse and seg["vkind"] in ("t0d", "batch")) else rng.choice(LAYOUTS)
+        layout = "reuse" if (reuse and seg["vkind"] in ("t0d", "batch") and seg.get("grad") in (None, "plain", "no_grad")) \
+            else rng.choice(LAYOUTS)
         events.append(["S", vals, layout])
         last = vals
     ctx.count("num.rtb.regenerated_near_threshold", skipped)
     return {"kind": "num.rtb", "steps": steps, "patience": patience, "d": d, "tol": tol, "D": D, "TOL": TOL,
-            "vkind": first_seg["vkind"], "dtype": first_seg["dtype"], "shape": first_seg["shape"], "itemwise": itemwise,
-            "verbose": rng.random() < 0.5, "style": rng.choice(["kw", "kw", "pos", "omit"]), "events": events}
+            "vkind": first_seg["vkind"], "dtype": first_seg["dtype"], "shape": first_seg["shape"],
+            "grad": first_seg.get("grad", "plain"), "itemwise": itemwise,
+            "verbose": rng.random() < 0.5, "style": style, "events": events}
 
 
 class LossFeeder:
@@ -571,9 +606,19 @@ class LossFeeder:
         vk, dt, shape = self.seg["vkind"], U.TD[self.seg["dtype"]], tuple(self.seg["shape"])
         if vk == "pyfloat":
             return float(vals[0])
+        if vk == "np64":
+            import numpy as np
+            return np.float64(vals[0])
         if vk == "pyint":
             return int(vals[0])
-        t = torch.tensor(vals, dtype=dt).reshape(shape if vk == "batch" else ())
+        t = torch.tensor(vals, dtype=dt).reshape(shape if vk in ("batch", "param") else ())
+        if vk == "param":
+            return torch.nn.Parameter(t)
+        if self.seg.get("grad") == "requires_grad" and layout != "reuse":
+            leaf = t.clone().requires_grad_(True)
+            v = leaf * 1.0          # a non-leaf inside an autograd graph
+            self.kept.append((v, t.clone(), None))
+            return v
         if layout == "reuse":
             if self.buf is None:
                 self.buf = t.clone()
@@ -641,7 +686,7 @@ def check_rtb_num(ctx: Ctx, case, model_reply=None) -> bool:
     except Exception as e:
         ctx.fail(case, f"raises: constructor {type(e).__name__}: {e}")
         return False
-    seg = {"vkind": case["vkind"], "dtype": case["dtype"], "shape": case["shape"]}
+    seg = {"vkind": case["vkind"], "dtype": case["dtype"], "shape": case["shape"], "grad": case.get("grad", "plain")}
     feeder = LossFeeder(seg)
     real, obs_all = [], []
     segs = [{"obs": [], "alias_obs": [], "codes": [], "reused": 0, "cfg": dict(seg)}]
@@ -677,10 +722,11 @@ def check_rtb_num(ctx: Ctx, case, model_reply=None) -> bool:
             else:
                 layout = ev[2] if len(ev) > 2 else "fresh"
                 pc_prev = st.patience_count
-                if case.get("style") == "pos":
-                    st.step(feeder.make(ev[1], layout))
-                else:
-                    st.step(loss=feeder.make(ev[1], layout))
+                with grad_ctx(seg.get("grad")):
+                    if case.get("style") == "pos":
+                        st.step(feeder.make(ev[1], layout))
+                    else:
+                        st.step(loss=feeder.make(ev[1], layout))
                 code = U.ctl_code(st)
                 nd, bl, _ = U.rtb_obs_exact(last, ev[1], D, TOL, dtype)
                 aliased = layout == "reuse" and prev_layout == "reuse"
@@ -694,7 +740,7 @@ def check_rtb_num(ctx: Ctx, case, model_reply=None) -> bool:
                 if got_last != [float(v) for v in ev[1]]:
                     ctx.fail(dict(case, event=ei), f"last: after step(loss) stepper.last={got_last[:4]} loss={ev[1][:4]}")
                     ok = False
-                if case.get("itemwise") and seg["vkind"] == "batch":
+                if case.get("itemwise") and seg["vkind"] == "batch" and seg["shape"] != [0]:
                     ok = itemwise_oracle(ctx, dict(case, event=ei), seg, ev[1], last, (nd, bl), singles,
                                          st.patience_count == pc_prev + 1 and not aliased, aliased) and ok
                     singles = singles or []
@@ -814,10 +860,15 @@ def gen_sop_case(ctx: Ctx, n_max):
     vkind = rng.choice(["pyfloat", "t0d", "t0d"])
     dtype = "float64" if vkind == "pyfloat" else rng.choice(["float64", "float32"])
     d = rng.choice([1e-3, 1e-3, 0.0, -0.5, 1.0, 0.125, 1e-6, 1e-2])
+    style = rng.choice(["kw", "kw", "pos", "omit"])
+    if style == "omit" and rng.random() < 0.6:
+        d = RTB_DEFAULTS["d"]
     D = U.rnd(d, dtype)
     has_reject = rng.random() < 0.7
     steps = rng.choice([1, 2, 3, 4, 5, 6, 8, 10, 15, 30, 100, 0, 10 ** 9])
     patience = rng.choice([1, 2, 2, 3, 3, 4, 5, 6, 0, 10 ** 6])
+    if style == "omit" and rng.random() < 0.6:
+        patience = RTB_DEFAULTS["patience"]
     n = rng.randint(1, n_max)
     extreme = rng.random() < 0.15
     script, loss, skipped = [], U.rnd(rng.choice(LADDER) * 10, dtype), 0
@@ -854,7 +905,11 @@ def gen_sop_case(ctx: Ctx, n_max):
     ctx.count("num.sop.regenerated_near_threshold", skipped)
     return {"kind": "num.sop", "steps": steps, "patience": patience, "d": d, "D": D, "vkind": vkind, "dtype": dtype,
             "has_reject": has_reject, "layout": rng.choice(["fresh", "fresh", "slice", "reuse"]),
-            "verbose": rng.random() < 0.5, "style": rng.choice(["kw", "kw", "pos", "omit"]), "script": script}
+            "probe_at": rng.choice([None, None, 0, rng.randrange(n)]),
+            # verbose printing divides python floats ((last-loss)/(last+1e-31)): real optimizers hand tensors, so the
+            # verbose flag is exercised with tensor readings only
+            "verbose": vkind != "pyfloat" and rng.random() < 0.6, "style": style,
+            "script": script}
 
 
 def check_sop_num(ctx: Ctx, case, model_reply=None) -> bool:
@@ -868,6 +923,22 @@ def check_sop_num(ctx: Ctx, case, model_reply=None) -> bool:
     fp0 = fingerprint(sch)
     for i, (last, loss, rc) in enumerate(case["script"]):
         try:
+            if case.get("probe_at") == i:
+                # (11) the documented argument check (step() before optimizer.step(): optimizer.loss is None) fires:
+                # the scheduler must be exactly as before and the history continues as if the call had not been made
+                before, keep_loss = (U.ctl_code(sch), fingerprint(sch)), opt.loss
+                opt.loss = None
+                try:
+                    sch.step(None)
+                    ctx.count("num.sop.probe_not_raised")
+                    opt.loss = keep_loss
+                    return ok
+                except AssertionError:
+                    opt.loss = keep_loss
+                    if (U.ctl_code(sch), fingerprint(sch)) != before:
+                        ctx.fail(dict(case, step=i), f"atomic: step() raised its documented check (optimizer.loss is None) but "
+                                                     f"changed the scheduler: {U.st_decode(before[0])} -> {U.st_decode(U.ctl_code(sch))}")
+                        ok = False
             if case["vkind"] == "pyfloat":
                 a, b = last, loss
             elif layout == "fresh":
@@ -952,7 +1023,7 @@ class RtbPlayer:
     def __init__(self, case):
         self.case = case
         self.st = new_rtb(case)
-        self.seg = {"vkind": case["vkind"], "dtype": case["dtype"], "shape": case["shape"]}
+        self.seg = {"vkind": case["vkind"], "dtype": case["dtype"], "shape": case["shape"], "grad": case.get("grad", "plain")}
         self.feeder, self.i, self.codes = LossFeeder(self.seg), 0, []
 
     def done(self):
@@ -967,7 +1038,8 @@ class RtbPlayer:
                 self.seg = dict(ev[1])
             self.feeder = LossFeeder(self.seg)
         else:
-            self.st.step(self.feeder.make(ev[1], ev[2] if len(ev) > 2 else "fresh"))
+            with grad_ctx(self.seg.get("grad")):
+                self.st.step(self.feeder.make(ev[1], ev[2] if len(ev) > 2 else "fresh"))
         self.codes.append(U.ctl_code(self.st))
 
 
@@ -1056,6 +1128,112 @@ def run_interleave(ctx: Ctx, n_cases):
         ctx.count("interleave.controllers", len(c["subs"]))
 
 
+# ----------------------------------------------------------------------------- copies of controllers
+
+COPY_METHODS = ["deepcopy", "copy", "pickle", "state_dict"]
+
+
+def copy_controller(player, method):
+    """a second player whose controller is a copy of player's, made with one of the supported copy operations"""
+    import copy
+    import pickle
+    twin = copy.copy(player)                       # the harness-side bookkeeping (shallow), then the controller itself
+    twin.codes = list(player.codes)
+    if isinstance(player, RtbPlayer):
+        twin.feeder = LossFeeder(player.seg)
+        if method == "state_dict":
+            method = "deepcopy"                    # a stepper has no state_dict
+        twin.st = {"deepcopy": copy.deepcopy, "copy": copy.copy,
+                   "pickle": lambda o: pickle.loads(pickle.dumps(o))}[method](player.st)
+    else:
+        if method == "state_dict":
+            twin.opt = FakeOpt(True)
+            twin.sch = new_sop(player.case, twin.opt)
+            twin.sch.load_state_dict(player.sch.state_dict())
+        else:
+            twin.sch = {"deepcopy": copy.deepcopy, "copy": copy.copy,
+                        "pickle": lambda o: pickle.loads(pickle.dumps(o))}[method](player.sch)
+            twin.opt = twin.sch.optimizer
+    return twin
+
+
+def check_copies(ctx: Ctx, case) -> bool:
+    """copy a controller in the middle of a history (deepcopy / copy / pickle / state_dict), then drive original and
+    copy with DIFFERENT continuations, interleaved: each must behave as a single controller fed its own history"""
+    import random
+    base, alt, k, method = case["base"], case["alt"], case["at"], case["method"]
+    mk = (lambda c: RtbPlayer(c)) if base["kind"] == "num.rtb" else (lambda c: SopPlayer(c))
+    key = "events" if base["kind"] == "num.rtb" else "script"
+    hist_b = dict(alt, **{key: base[key][:k] + alt[key]})       # history of the copy: common prefix + its own tail
+    try:
+        ref_a, ref_b = mk(base), mk(hist_b)
+        for pl in (ref_a, ref_b):
+            while not pl.done():
+                pl.play()
+        a = mk(base)
+        for _ in range(k):
+            a.play()
+        b = copy_controller(a, method)
+        b.case, b.i = hist_b, k
+        r = random.Random(case["order_seed"])
+        live = [a, b]
+        while live:
+            pl = r.choice(live)
+            if pl.done():
+                live.remove(pl)
+                continue
+            pl.play()
+    except Exception as e:
+        ctx.fail(case, f"raises: copy ({method}) of a controller / its use raised {type(e).__name__}: {str(e)[:120]}")
+        return False
+    ok = True
+    for name, ref, got in (("original", ref_a, a), ("copy", ref_b, b)):
+        if ref.codes != got.codes:
+            j = next((i for i, (x, y) in enumerate(zip(ref.codes, got.codes)) if x != y), min(len(ref.codes), len(got.codes)))
+            ctx.fail(case, f"copies: after {method} at event {k} the {name} deviates at its event {j}: "
+                           f"{U.st_decode(got.codes[j]) if j < len(got.codes) else None} instead of "
+                           f"{U.st_decode(ref.codes[j]) if j < len(ref.codes) else None} (a controller fed the same history alone)")
+            ok = False
+    return ok
+
+
+def gen_copies_case(ctx: Ctx, n_max=12):
+    rng = ctx.rng
+    if rng.random() < 0.4:
+        base = gen_rtb_case(ctx, n_max)
+        while base["vkind"] == "param" or base.get("grad") in ("requires_grad", "inference"):
+            base = gen_rtb_case(ctx, n_max)   # a stepper holding an autograd non-leaf cannot be deep-copied (torch)
+        alt = gen_rtb_case(ctx, n_max)
+        for c in (base, alt):        # one kind/dtype/shape for both continuations (the copy shares `last`)
+            cut = next((i for i, e in enumerate(c["events"]) if e[0] == "R"), len(c["events"]))
+            c["events"] = [e for e in c["events"][:cut] if e[2] != "reuse"]
+        alt = dict(alt, **{k: base[k] for k in ("steps", "patience", "d", "tol", "D", "TOL", "vkind", "dtype", "shape", "grad",
+                                               "verbose", "style")})
+        B = int(math.prod(base["shape"])) if base["vkind"] == "batch" else 1
+        alt["events"] = [["S", [U.rnd(abs(v) + 0.0, base["dtype"]) for v in ((e[1] or [1.0]) * B)[:B]], "fresh"] for e in alt["events"]] \
+            if base["vkind"] != "pyint" else [["S", [float(min(int(abs(v)), 10 ** 6)) for v in ((e[1] or [1.0]) * B)[:B]], "fresh"] for e in alt["events"]]
+        n = len(base["events"])
+    else:
+        base, alt = gen_sop_case(ctx, n_max), gen_sop_case(ctx, n_max)
+        for c in (base, alt):
+            c["has_reject"] = True
+            c["script"] = [[a, b, 0 if rc is None else rc] for a, b, rc in c["script"]]
+        alt = dict(alt, **{k: base[k] for k in ("steps", "patience", "d", "D", "vkind", "dtype", "verbose", "style")})
+        alt["script"] = [[U.rnd(a, base["dtype"]), U.rnd(b, base["dtype"]), rc] for a, b, rc in alt["script"]]
+        n = len(base["script"])
+    return {"kind": "copies", "base": base, "alt": alt, "at": rng.randint(0, n),
+            "method": rng.choice(COPY_METHODS + (["copy", "state_dict"] if base["kind"] == "num.sop" else [])),
+            "order_seed": rng.randrange(1 << 30)}
+
+
+def run_copies(ctx: Ctx, n_cases):
+    for _ in range(n_cases):
+        c = gen_copies_case(ctx)
+        guarded(ctx, c, check_copies, ctx, c)
+        ctx.note_case(("copies", c["base"]["kind"], c["method"], c["at"], c["order_seed"]), True)
+        ctx.count(f"copies.{c['base']['kind'][4:]}.{c['method']}")
+
+
 # ============================================================================= driver loops
 
 def loop_line(kind, steps, patience, k, code0, obs_codes):
@@ -1081,6 +1259,7 @@ def gen_opt_case(ctx: Ctx):
     c["kind"] = "drv.optimize"
     c["steps"] = rng.choice([1, 1, 2, 3, 4, 5, 6, 8, 12, 0])
     c["pre"] = rng.choice([0, 0, 0, 1, 2, 3])
+    c["raise_at"] = rng.choice([None, None, 0, 1, 2, 3])   # iteration of optimize() in which optimizer.step raises
     n = max(c["steps"], 1) + c["pre"] + 3
     mode = rng.choice(["dec", "mixed", "mixed", "plateau"])
     D = c["D"]
@@ -1117,8 +1296,22 @@ def check_opt_scripted(ctx: Ctx, case, want_model=True):
     code0, pre = U.ctl_code(sch), case["pre"]
     tok = (object(), object(), object())
     fp0 = fingerprint(sch)
+    opt.raise_at = None if case.get("raise_at") is None else pre + case["raise_at"]
     try:
-        sch.optimize(tok[0], tok[1], tok[2])
+        try:
+            sch.optimize(tok[0], tok[1], tok[2])
+        except U.SolverFailed:
+            # (11) the optimizer raised inside the loop: the scheduler must be exactly where the completed steps left it,
+            # and calling optimize again must continue as if the failing call had not happened
+            want_code = code0 if case["raise_at"] == 0 else None
+            done = opt.calls - pre
+            spec = spec_trace_segment("sop", case["steps"], case["patience"], obs[:pre + done], 0)
+            exp = (spec[-1][0], spec[-1][1]) if spec else (True, 0)
+            got = (sch.continual(), sch.patience_count)
+            if sch.steps != pre + done or got != exp or (want_code is not None and U.ctl_code(sch) != want_code):
+                ctx.fail(case, f"atomic: optimizer.step raised in iteration {done}; scheduler is at steps={sch.steps} "
+                               f"(continual, patience_count)={got}, the {pre + done} completed steps give {exp}")
+            sch.optimize(tok[0], tok[1], tok[2])
     except IndexError:
         ctx.fail(case, f"bound: scheduler.optimize still looping after {opt.calls - pre} optimizer steps "
                        f"(steps={case['steps']}, {pre} manual steps before)")
@@ -1312,6 +1505,8 @@ class StubLQR(torch.nn.Module):
         self.costs, self.n, self.T, self.ns, self.nc = [], 0, T, ns, nc
 
     def forward(self, x_init, dt=1, u_traj=None, **kw):
+        if getattr(self, "raise_at", None) == self.n:
+            raise U.SolverFailed("LQR failed (injected)")
         c = self.costs[self.n]   # IndexError = runaway loop
         self.n += 1
         return torch.zeros(1, self.T + 1, self.ns), torch.zeros(1, self.T, self.nc), torch.tensor([c], dtype=torch.float64)
@@ -1346,8 +1541,15 @@ def gen_mpc_case(ctx: Ctx):
             "d": rng.choice([1e-3, 0.5, 1.0, 0.0]), "tol": rng.choice([1e-5, -1e9, -1e9, 1.0]),
             "k_inits": rng.choice([1, 1, 1, 2, 3]), "real_lqr": False, "verbose": rng.random() < 0.5,
             "style": rng.choice(["kw", "pos", "omit"]),
-            "calls": [{"mode": rng.choice(["dec", "neg", "plateau", "walk", "walk"]), "seed": rng.randrange(1 << 30)}
-                      for _ in range(rng.choice([1, 2, 2, 3]))]}
+            "calls": mpc_calls(rng)}
+
+
+def mpc_calls(rng):
+    calls = [{"mode": rng.choice(["dec", "neg", "plateau", "walk", "walk"]), "seed": rng.randrange(1 << 30)}
+             for _ in range(rng.choice([1, 2, 2, 3]))]
+    if rng.random() < 0.3:      # a forward() whose LQR raises in iteration j, followed by an ordinary one
+        calls.insert(rng.randrange(len(calls)), {"mode": "walk", "seed": rng.randrange(1 << 30), "raise_at": rng.choice([0, 1, 2])})
+    return calls
 
 
 def check_mpc(ctx: Ctx, case):
@@ -1392,6 +1594,7 @@ def check_mpc(ctx: Ctx, case):
         else:
             stub = StubLQR(T, ns, nc)
             stub.costs = gen_costs(random.Random(call["seed"]), max(case["steps"], 1) + 4, D, TOL, call["mode"])
+            stub.raise_at = call.get("raise_at")
             mpc.lqr = stub
         try:
             gcall = torch.Generator().manual_seed(call["seed"])
@@ -1399,11 +1602,17 @@ def check_mpc(ctx: Ctx, case):
             uin = torch.randn(1, T, nc, generator=gcall) if (call["seed"] % 3 == 0) else None
             keep = [(xin, xin.clone())] + ([(uin, uin.clone())] if uin is not None else [])
             fp_call = fingerprint(st)
-            mpc([1, 2, 0.5][call["seed"] % 3] if not case["real_lqr"] else 1, xin, u_init=uin)
+            kw = {}
+            if not case["real_lqr"] and call["seed"] % 5 < 2:     # exactly one of the two related bounds given
+                kw["u_lower" if call["seed"] % 5 == 0 else "u_upper"] = torch.zeros(1, T, nc)
+            mpc([1, 2, 0.5][call["seed"] % 3] if not case["real_lqr"] else 1, xin, u_init=uin, **kw)
             if any(not torch.equal(a, b) for a, b in keep):
                 ctx.fail(dict(case, call=ci), "purity: MPC.forward modified x_init / u_init")
             if mpc.stepper is not st or fingerprint(st) != fp_call:
                 ctx.fail(dict(case, call=ci), f"attributes: MPC.forward changed the stepper's configuration: {fp_call} -> {fingerprint(st)}")
+        except U.SolverFailed:
+            ctx.count("drv.mpc.kernel_raised")
+            continue     # (11) the next forward() on the same objects must behave like a fresh one (checked below)
         except IndexError:
             ctx.fail(dict(case, call=ci), f"bound: MPC.forward still looping after {len(rec)} controller steps (steps={case['steps']})")
             return None
@@ -1491,6 +1700,15 @@ def run_drv_mpc(ctx: Ctx, n_cases, n_real):
 # ----------------------------------------------------------------------------- ICP
 
 def gen_icp_case(ctx: Ctx):
+    c = _gen_icp_case(ctx)
+    if c["module_init"]:          # the module-level init has one dtype: keep the calls in it
+        for call in c["calls"]:
+            if "dtype" in call:
+                call["dtype"] = c["dtype"]
+    return c
+
+
+def _gen_icp_case(ctx: Ctx):
     rng = ctx.rng
     vary = rng.random() < 0.6      # every per-call argument varied between the calls on one ICP object
 
@@ -1504,10 +1722,17 @@ def gen_icp_case(ctx: Ctx):
     return {"kind": "drv.icp", "steps": rng.choice([1, 2, 3, 4, 5, 6, 8]), "patience": rng.choice([1, 2, 2, 3, 4]),
             "d": U.rnd(rng.choice([1e-3, 0.5, 1.0]), "float32"), "tol": U.rnd(rng.choice([1e-5, 1e-5, 2.0 ** -10, -1.0]), "float32"),
             "batch": rng.choice([[], [1], [2], [3]]), "dtype": rng.choice(["float32", "float64"]),
-            "module_init": (not vary) and rng.random() < 0.4, "verbose": rng.random() < 0.5,
+            "module_init": rng.random() < 0.4, "verbose": rng.random() < 0.5,
             "style": rng.choice(["kw", "pos", "omit"]),
             "scripted": rng.random() < 0.75, "data_seed": rng.randrange(1 << 30),
-            "calls": [call() for _ in range(rng.choice([1, 2, 2, 3, 4]))]}
+            "calls": icp_calls(rng, call)}
+
+
+def icp_calls(rng, call):
+    calls = [call() for _ in range(rng.choice([1, 2, 2, 3, 4]))]
+    if rng.random() < 0.3:
+        calls.insert(rng.randrange(len(calls)), dict(call(), raise_at=rng.choice([0, 1, 2])))
+    return calls
 
 
 def as_layout(t, layout):
@@ -1563,6 +1788,8 @@ def check_icp(ctx: Ctx, case):
             it = [0]
 
             def sknn(*a, **k):
+                if call.get("raise_at") == it[0]:
+                    raise U.SolverFailed("kNN failed (injected)")
                 d, i = oknn(*a, **k)
                 if script is not None:
                     row = script[it[0]]   # IndexError = runaway
@@ -1590,6 +1817,9 @@ def check_icp(ctx: Ctx, case):
                 if init is not None:
                     kw["init"] = init
                 icp(src, tgt, **kw)
+            except U.SolverFailed:
+                ctx.count("drv.icp.kernel_raised")
+                continue
             except IndexError:
                 ctx.fail(dict(case, call=ci), f"bound: ICP.forward still looping after {len(rec)} controller steps (steps={case['steps']})")
                 return None
@@ -1688,6 +1918,15 @@ def corpus_cases():
         _rtb(0, 1, 1e-3, 1e-5, "t0d", "float64", [], [S([3.0]), S([1.0]), ["R"], S([1.0])]),
         _rtb(-1, 0, 1e-3, 1e-5, "t0d", "float64", [], [S([3.0]), S([1.0])]),
         _rtb(10 ** 9, 10 ** 6, 0.0, -1e9, "t0d", "float64", [], [S([1.0]), S([1.0]), S([0.5]), S([0.5])]),
+        # every optional argument left at its documented default (patience 5, decreasing 1e-3, tol 1e-5)
+        dict(_rtb(40, 5, 1e-3, 1e-5, "t0d", "float64", [], [S([1002.0]), S([1000.0]), S([999.5]), S([999.5]), S([999.5]), S([999.5]),
+                                                         S([999.5]), S([5e-6]), ["R"], S([2e-6]), ["R"], S([1.0]), S([9.999e-6])]), style="omit"),
+        # sizes: 11 / 9 / 7 elements where only the LAST (or only one middle) element decides
+        _rtb(30, 2, 0.5, 1.0, "batch", "float32", [11], [S([0.5] * 10 + [4.0]), S([0.5] * 10 + [2.0]), S([0.5] * 10 + [1.0]),
+                                                        S([0.5] * 10 + [0.75]), S([0.5] * 11)], True),
+        _rtb(30, 2, 0.5, -1.0, "batch", "float64", [3, 3], [S([8.0] * 9), S([8.0] * 8 + [4.0]), S([8.0] * 8 + [2.0]),
+                                                           S([8.0] * 9), S([8.0] * 4 + [1.0] + [8.0] * 4), S([8.0] * 9)], True),
+        _rtb(30, 2, 0.5, 1.0, "batch", "float64", [7], [S([0.25] * 3 + [2.0] + [0.25] * 3), S([0.25] * 7), S([0.25] * 7)], True),
         # long history: counters beyond 256, patience 257 reached exactly at step 258, budget 290
         _rtb(290, 257, 1e-3, 1e-9, "t0d", "float32", [], plateau),
     ]
@@ -1735,13 +1974,14 @@ def run_corpus(ctx: Ctx):
     try:
         run_trie(ctx, "sop", core_configs(), 4)
         run_trie(ctx, "rtb", core_configs()[::3], 3)
-        run_num_rtb(ctx, 200, 40)
-        run_num_rtb(ctx, 3, 420, long=True)
-        run_num_sop(ctx, 150, 40)
-        run_interleave(ctx, 40)
-        run_drv_optimize(ctx, 150)
-        run_drv_mpc(ctx, 80, 2)
-        run_drv_icp(ctx, 35)
+        run_num_rtb(ctx, 160, 40)
+        run_num_rtb(ctx, 2, 420, long=True)
+        run_num_sop(ctx, 120, 40)
+        run_interleave(ctx, 30)
+        run_copies(ctx, 90)
+        run_drv_optimize(ctx, 120)
+        run_drv_mpc(ctx, 60, 2)
+        run_drv_icp(ctx, 25)
     finally:
         ctx.rng = saved
 
@@ -1777,10 +2017,14 @@ def _run(ctx: Ctx):
     run_graph(ctx, "sop", core + extra, depth)
     run_graph(ctx, "rtb", core + extra, depth)
     if q:
-        run_trie(ctx, "sop", core, 5)
+        sh = list(core)
+        rng.shuffle(sh)
+        run_trie(ctx, "sop", sh[:12], 5)
+        run_trie(ctx, "sop", sh[12:], 4)
         run_trie(ctx, "sop", rng.sample(core, 2), 6)
-        run_trie(ctx, "rtb", core, 4)
-        run_trie(ctx, "rtb", rng.sample(core, 2), 5)
+        run_trie(ctx, "rtb", sh[:10], 4)
+        run_trie(ctx, "rtb", sh[10:], 3)
+        run_trie(ctx, "rtb", rng.sample(core, 1), 5)
     else:
         sh = list(core)
         rng.shuffle(sh)
@@ -1789,12 +2033,13 @@ def _run(ctx: Ctx):
         run_trie(ctx, "sop", rng.sample(core, 1), 8)
         run_trie(ctx, "rtb", core, 5)
         run_trie(ctx, "rtb", sh[:8], 6)
-    run_num_rtb(ctx, ctx.pick(500, 2500), 40 if q else 150)
-    run_num_rtb(ctx, ctx.pick(3, 12), 420 if q else 1500, long=True)
+    run_num_rtb(ctx, ctx.pick(400, 2500), 40 if q else 150)
+    run_num_rtb(ctx, ctx.pick(2, 12), 420 if q else 1500, long=True)
     run_num_sop(ctx, ctx.pick(500, 2500), 40 if q else 150)
     run_interleave(ctx, ctx.pick(60, 400))
+    run_copies(ctx, ctx.pick(120, 800))
     run_drv_optimize(ctx, ctx.pick(400, 4000))
-    run_drv_optimize_real(ctx, ctx.pick(16, 200))
+    run_drv_optimize_real(ctx, ctx.pick(12, 200))
     run_drv_mpc(ctx, ctx.pick(200, 2000), ctx.pick(12, 100))
     run_drv_icp(ctx, ctx.pick(50, 500))
 
@@ -1853,6 +2098,8 @@ def _replay_case(ctx: Ctx, c, kind) -> bool:
         check_sop_num(ctx, c, ctx.driver.run([sop_num_line(c)])[0])
     elif kind == "interleave":
         check_interleave(ctx, c)
+    elif kind == "copies":
+        check_copies(ctx, c)
     elif kind == "drv.optimize":
         r = check_opt_scripted(ctx, c)
         if r:
